@@ -204,6 +204,14 @@ def leg_pandas_sqlite(ns, res, spec):
                 names = [str(x) for x in labels]
                 df = pd.DataFrame(A, columns=labels)
                 res.count('pandas_integer_label_frames')
+            if n % 4 == 1:
+                # the frame's index carries a name (set_index / groupby results): index levels are not columns, the names still bind to the data columns
+                df.index = pd.Index(['i%d' % i for i in range(len(A))], name=rng.choice(['key', names[0], 'NR']))
+                res.count('pandas_named_index_frames')
+            elif n % 4 == 3:
+                nl = rng.choice([2, 3])
+                df.index = pd.MultiIndex.from_tuples([tuple('l%d_%d' % (l, i) for l in range(nl)) for i in range(len(A))], names=['lvl%d' % l for l in range(nl)])
+                res.count('pandas_named_multiindex_frames')
             for col in range(len(names)):
                 for style, var in variants(names, col, expression=True):
                     qtext = 'select %s, NR%s' % (var, rng.choice(['', ' WITH (header)']))
@@ -425,8 +433,8 @@ def run_shard(spec, res):
 
 def summarize(tier, seed, m):
     return {
-        'rule': 'random headers of 1-5 distinct names over printable ASCII incl. both quotes, backslash, backtick, brackets, #, =, %%, spaces, tab, newline, non-ASCII (and prefix / suffix / case variants of each other; names containing an a.ident / b.ident token excluded as quantified) over tables whose cell (r, c) is the unique token r{r}c{c}; for every column and every spelling (a["..."], a[\'...\'], a.name when identifier-safe, bare name in direct mode) the query `select <var>, NR` must return exactly that column and NR = 1.. ; sources: list column names, pandas columns, sqlite columns, CSV header line (query_csv); WITH (header | noheader | headers | noheaders) x caller flag x {input, input + join} on CSV incl. the command line. distinct_nontrivial = distinct (source, header, column, spelling) lookups.',
-        'required': ['js_lookups', 'js_lookups:bt', 'named_target:update', 'named_target:except', 'named_target:joinkey', 'list_lookups', 'list_lookups:dq', 'list_lookups:sq', 'list_lookups:attr', 'direct_mode_lookups', 'pandas_lookups', 'pandas_integer_label_frames', 'sqlite_lookups', 'sqlite_tables:generated', 'sqlite_tables:view', 'csv_lookups', 'with_modifier_runs', 'with_modifier_named_join_runs', 'header_never_data_checks', 'cli_with_modifier_runs'],
+        'rule': 'random headers of 1-5 distinct names over printable ASCII incl. both quotes, backslash, backtick, brackets, #, =, %%, spaces, tab, newline, non-ASCII (and prefix / suffix / case variants of each other; names containing an a.ident / b.ident token excluded as quantified) over tables whose cell (r, c) is the unique token r{r}c{c}; for every column and every spelling (a["..."], a[\'...\'], a.name when identifier-safe, bare name in direct mode) the query `select <var>, NR` must return exactly that column and NR = 1.. ; sources: list column names, pandas columns, sqlite columns, CSV header line (query_csv); WITH (header | noheader | headers | noheaders) x caller flag x {input, input + join} on CSV incl. the command line. dataframes whose index carries a name, or is a named two- / three-level MultiIndex, in half of the pandas cases; distinct_nontrivial = distinct (source, header, column, spelling) lookups.',
+        'required': ['js_lookups', 'js_lookups:bt', 'named_target:update', 'named_target:except', 'named_target:joinkey', 'list_lookups', 'list_lookups:dq', 'list_lookups:sq', 'list_lookups:attr', 'direct_mode_lookups', 'pandas_lookups', 'pandas_integer_label_frames', 'pandas_named_index_frames', 'pandas_named_multiindex_frames', 'sqlite_lookups', 'sqlite_tables:generated', 'sqlite_tables:view', 'csv_lookups', 'with_modifier_runs', 'with_modifier_named_join_runs', 'header_never_data_checks', 'cli_with_modifier_runs'],
         'assumptions': ['a.name only for names that are not Python / JS keywords and do not collide with members of the record object; direct mode only for names that do not shadow the engine\'s own locals (documented limitations)'],
     }
 
